@@ -36,6 +36,11 @@ def gen(rng, allow_generated):
     n_mods = rng.randint(1, 4)
     n_types = rng.randint(4, 12)
     names = [f"T{i}" for i in range(n_types)]
+    # now and then two types whose names differ only in case (they sort next to each other)
+    if n_types >= 2 and rng.random() < 0.3:
+        names[1] = names[0].lower() if rng.random() < 0.5 else names[0][0] + "x"
+        if names[1] == names[0]:
+            names[1] = "t0"
     home = {n: rng.randrange(n_mods) for n in names}
     has_vft = {n: rng.random() < 0.3 for n in names}
     undefined = rng.random() < 0.15
@@ -85,8 +90,31 @@ def gen(rng, allow_generated):
             else:
                 f = func("g", [{"k": "cself", "name": "", "ty": TN}], mptr(nm("Nowhere")), 0x50000)
             m["impls"].append({"name": n, "funcs": [f]})
+    # enums: base a built-in, or an extern type of another module seen through the module import
+    if rng.random() < 0.5:
+        k = rng.randrange(n_mods)
+        base = "u32"
+        if n_mods > 1 and rng.random() < 0.6:
+            other = (k + 1) % n_mods
+            mods[other]["exts"].append({"name": "DWORD", "size": 4, "align": 4})
+            base = "DWORD"
+        elif undefined and rng.random() < 0.3:
+            base = "Nowhere"
+        mods[k]["defs"].append({"k": "enum", "name": "Kind", "vis": "pub", "doc": [], "base": nm(base),
+                                "vars": [{"name": "A", "val": {"a": "none", "d": 0}, "dflt": False},
+                                         {"name": "B", "val": {"a": "0", "d": 5}, "dflt": False}],
+                                "singleton": NONE, "copyable": False, "cloneable": False, "defaultable": False})
+        tds = [d for m in mods for d in m["defs"] if d["k"] == "type"]
+        if tds:
+            rng.choice(tds)["fields"].insert(0, field("kind_ptr", mptr(nm("Kind"))))
     for m in mods:
         rng.shuffle(m["defs"])
+    # a module that holds nothing but extern values
+    if rng.random() < 0.3:
+        mods.append({"path": ["globals"], "doc": [], "uses": [[f"m{j}"] for j in range(n_mods)], "exts": [],
+                     "evals": [{"name": "root", "vis": "pub", "ty": mptr(nm(rng.choice(order))), "addr": 0x80000},
+                               {"name": "count", "vis": "priv", "ty": nm("u32"), "addr": 0x80010}],
+                     "defs": [], "impls": [], "backs": []})
     if rng.random() < 0.2:
         mods[0]["evals"].append({"name": "gv", "vis": "pub", "ty": mptr(nm(rng.choice(order))), "addr": 0x70000})
     return {"ptr": rng.choice([4, 8]), "mods": mods}
